@@ -366,6 +366,32 @@ def rand_schedc(rng):
               threads=threads, sched=sched_spec(rng))
 
 
+def rand_scheda(rng):
+  """orchestrate.as_completed under the scheduler (observed script of primitives): thread 0 consumes as_completed over
+  0-4 tasks (ok / raising), takes all results, or k of them and closes the generator, or closes it unstarted; other pools
+  compete for the same workers; the environment kills / revives workers and delivers (or fails) the replies late."""
+  c = rand_schedc(rng)
+  c['fam'] = 'scheda'
+  p = c['threads'][0]['ops'][0]['p']
+  nt = rng.randrange(0, 5)
+  c['threads'][0] = dict(kind='pool', ops=[dict(op='as_completed', p=p, tasks=[rng.choice(['ok', 'ok', 'raise']) for _ in range(nt)],
+                                                take=rng.choice([None, None, None, None, 1, 1, 2, 0] if nt else [None, 0]),
+                                                ignore=rng.random() < 0.4)])
+  c['reg0'] = [r if rng.random() < 0.3 else 'alive' for r in c['reg0']]
+  if rng.random() < 0.75:
+    c['sched']['kind'] = 'random'      # (under PCT a spinning as_completed starves the transport: the run is cut)
+  c['threads'] = [t for i, t in enumerate(c['threads'])
+                  if i == 0 or t['kind'] == 'env' or all(o['p'] != p or o['op'] in ('release_all', 'call', 'idle') for o in t['ops'])]
+  # a transport that keeps answering for a while (one step per delivery; as_completed needs dozens of steps per loop round)
+  c['threads'].append(dict(kind='env', ops=[dict(op='deliver', k=0, fail=rng.random() < 0.05) for _ in range(rng.randrange(40, 120))]))
+  for t in c['threads']:            # mostly short ticks: as_completed gives up as soon as no worker of the pool is alive
+    if t['kind'] == 'env':
+      for o in t['ops']:
+        if o['op'] == 'tick' and rng.random() < 0.7:
+          o['d'] = min(o['d'], 31)
+  return c
+
+
 def gen_cases(ctx):
   import os
   fams = os.environ.get('VERIF_C20_FAMILIES')          # development aid: restrict the families (default: all)
@@ -399,9 +425,9 @@ def _gen_cases(ctx):
   for _ in range(500 if quick else 8000):
     yield rand_own(rng)
   # --- sched (after the older families, whose random streams are thereby unchanged): real threads under the deterministic scheduler, replayed on the LTS
-  for _ in range(1500 if quick else 30000):
+  for _ in range(1500 if quick else 18000):
     yield rand_sched(rng)
-  for _ in range(150 if quick else 4000):      # (round 6: largely subsumed by family schedc below; kept as an oracle-only cross-check)
+  for _ in range(150 if quick else 2000):      # (round 6: largely subsumed by family schedc below; kept as an oracle-only cross-check)
     yield rand_schedrun(rng)
   # --- live, server life-cycle (round 6; no PRNG use): after a delivered shutdown every sequence of <= 3 (4 thorough) of
   # restart / kill / shutdown / deliver / call / alive, closed by a call, deliveries, a registration and is_alive: the
@@ -414,8 +440,11 @@ def _gen_cases(ctx):
                       [dict(op='call', i=0), dict(op='deliver', k=0, fail=False), dict(op='deliver', k=0, fail=False),
                        dict(op='reg', a=0, t=990), dict(op='alive', i=0)])
   # --- schedc (round 6): run / call_and_wait step by step under the scheduler
-  for _ in range(330 if quick else 8000):
+  for _ in range(330 if quick else 6000):
     yield rand_schedc(rng)
+  # --- scheda (round 6): orchestrate.as_completed under the scheduler, as the observed script of its primitive operations
+  for _ in range(160 if quick else 3000):
+    yield rand_scheda(rng)
 
 
 # ----------------------------------------------------------------------------- real code
@@ -423,7 +452,7 @@ def _gen_cases(ctx):
 def run_impl(case):
   if case['fam'] in ('sched', 'schedrun'):
     return lo.run_real(case)
-  if case['fam'] == 'schedc':
+  if case['fam'] in ('schedc', 'scheda'):
     return lo.run_real(case, max_steps=1200)
   return run_live(case) if case['fam'] == 'live' else run_own(case)
 
@@ -627,6 +656,8 @@ def model_requests_obs(case, obs):
     return []
   if case['fam'] in ('sched', 'schedc'):
     return [lo.model_request(case, obs['choices'])]
+  if case['fam'] == 'scheda':
+    return [lo.model_request(case, obs['choices'], obs['alog'])]
   return model_requests(case)
 
 
@@ -689,7 +720,8 @@ PROGRAM_POINTS = [
     'c.start.run', 'c.start.caw', 'c.rTick', 'c.rCond', 'c.rCond.err', 'c.rAlive.ret', 'c.rAlive.sleep', 'c.rNext',
     'c.rClockN.timeout', 'c.rClockN.submit', 'c.rClockN.again', 'c.rSub.wait', 'c.rSub.sleepAlive', 'c.rSub.disconnected',
     'c.rSub.sleepCap', 'c.cAcq', 'c.cWait', 'r.strAcq', 'r.strRel', 'e.deliver.taskRaise',
-    'e.shutdown', 'e.deliver.cancelled', 'e.deliver.shutdown']
+    'e.shutdown', 'e.deliver.cancelled', 'e.deliver.shutdown',
+    'c.start.submit', 'c.sSub.sleepAlive', 'c.sSub.disconnected', 'c.sSub.sleepCap']
 _SCHEDULES = set()
 
 
@@ -698,10 +730,13 @@ def model_obs(case, resps):
     _cover('schedrun', 'runs')
     return dict(skip=True)
   r = resps[0]
-  if case['fam'] in ('sched', 'schedc'):
+  if case['fam'] in ('sched', 'schedc', 'scheda'):
     m = lo.model_obs(case, r)
     for pp in m['pps']:
       _cover('sched_program_points', pp)
+    if case['fam'] == 'scheda':
+      _cover('scheda', 'schedules replayed')
+      _cover('scheda', 'steps', len(m['pps']))
     if case['fam'] == 'schedc':
       _cover('schedc', 'schedules replayed')
       _cover('schedc', 'steps', len(m['pps']))
@@ -775,7 +810,7 @@ def compare(impl, model):
 # ----------------------------------------------------------------------------- oracle (the property itself)
 
 def oracle(case, obs):
-  if case['fam'] in ('sched', 'schedrun', 'schedc'):
+  if case['fam'] in ('sched', 'schedrun', 'schedc', 'scheda'):
     return oracle_sched(case, obs)
   return oracle_live(case, obs) if case['fam'] == 'live' else oracle_own(case, obs)
 
@@ -802,7 +837,7 @@ def oracle_sched(case, obs):
   for t, th in enumerate(ths):
     if th['kind'] == 'pool':
       for o in th['ops']:
-        if o['op'] in ('acquire_all',) + tuple(lo.COMPOSITE_OPS) or (o['op'] == 'next_idle' and o['acq']):
+        if o['op'] in ('acquire_all',) + tuple(lo.COMPOSITE_LIKE) or (o['op'] == 'next_idle' and o['acq']):
           acquirers[o['p']].add(t)
   last_step = {}                                     # (tid, op index) -> index of its last executed step
   first_step = {}
@@ -823,13 +858,13 @@ def oracle_sched(case, obs):
       for p in set(oa) - set(ob):
         ok = (th['kind'] == 'pool' and op['p'] == p and
               ((op['op'] == 'release' and op['w'] == w) or (op['op'] == 'release_all' and (not op['ws'] or w in op['ws']))
-               or (op['op'] in lo.COMPOSITE_OPS and w in case['pw'][p])))
+               or (op['op'] in lo.COMPOSITE_LIKE and w in case['pw'][p])))
         if not ok:
           return f'{where}: pool {p} lost worker {w} through an operation that is not its own release'
       for p in set(ob) - set(oa):
         ok = (th['kind'] == 'pool' and op['p'] == p and
               ((op['op'] == 'acquire_all' and w in op['ws']) or (op['op'] == 'next_idle' and op['acq'] and w in op['ws'])
-               or (op['op'] in lo.COMPOSITE_OPS and w in case['pw'][p])))
+               or (op['op'] in lo.COMPOSITE_LIKE and w in case['pw'][p])))
         if not ok:
           return f'{where}: pool {p} became owner of worker {w} through an operation that does not acquire it for {p}'
       ra, rb = a['reg'][w], b['reg'][w]
@@ -871,6 +906,11 @@ def oracle_sched(case, obs):
         held = [w for w in range(nw) if p in b['owners'][w]]
         if held:
           return f'{where}: release_all() of pool {p} returned and the pool still owns workers {held}'
+      if op['op'] == 'as_completed' and sole_acq and res != 'never-started':
+        # "when a pool-level operation returns or raises [or its generator is closed], none of its workers remains acquired"
+        held = [w for w in range(nw) if p in b['owners'][w]]
+        if held:
+          return f'{where}: as_completed of pool {p} ended with {res!r} and the pool still owns workers {held}'
       if op['op'] in lo.COMPOSITE_OPS and sole_acq:
         # "when a pool-level operation returns or raises, none of its workers remains acquired"
         held = [w for w in range(nw) if p in b['owners'][w]]
@@ -1000,7 +1040,7 @@ def oracle_own(case, obs):
 
 
 def nontrivial(case, obs):
-  if case['fam'] in ('sched', 'schedrun', 'schedc'):
+  if case['fam'] in ('sched', 'schedrun', 'schedc', 'scheda'):
     ch = obs['choices']
     return sum(1 for a, b in zip(ch, ch[1:]) if a != b) >= 8
   if case['fam'] == 'live':
@@ -1026,7 +1066,7 @@ def finding(case, what):
 
 
 def neighbours(case, rng):
-  if case['fam'] in ('schedrun', 'schedc'):
+  if case['fam'] in ('schedrun', 'schedc', 'scheda'):
     for k in range(300):
       c = copy.deepcopy(case)
       c['sched'] = sched_spec(rng)
@@ -1034,6 +1074,9 @@ def neighbours(case, rng):
     if case['fam'] == 'schedc':
       for _ in range(200):
         yield rand_schedc(rng)
+    if case['fam'] == 'scheda':
+      for _ in range(200):
+        yield rand_scheda(rng)
     return
   if case['fam'] == 'sched':
     for k in range(300):
@@ -1081,7 +1124,7 @@ def shrink_sched(case, fails):
 
 
 def shrink(case, fails):
-  if case['fam'] in ('sched', 'schedrun', 'schedc'):
+  if case['fam'] in ('sched', 'schedrun', 'schedc', 'scheda'):
     return shrink_sched(case, fails)
   cur = case
   key = 'events' if case['fam'] == 'live' else 'ops'
@@ -1151,6 +1194,11 @@ COVER_CONFIGS = [
          threads=[dict(kind='pool', ops=[dict(op='run', p=0, task='raise')]),
                   dict(kind='env', ops=[dict(op='tick', d=200), dict(op='revive', w=0), dict(op='deliver', k=0, fail=False),
                                         dict(op='deliver', k=0, fail=False)])]),
+    dict(nworkers=1, pw=[[0], [0]], thr=100, now=1000, reg0=['alive'], mp=[1],
+         threads=[dict(kind='pool', ops=[dict(op='next_idle', p=0, ws=[0], acq=True), dict(op='submit', p=0, w=0, task='ok'),
+                                         dict(op='release_all', p=0, ws=[])]),
+                  dict(kind='pool', ops=[dict(op='call', p=1, w=0)]),
+                  dict(kind='env', ops=[dict(op='die', w=0), dict(op='tick', d=200), dict(op='deliver', k=0, fail=False)])]),
     dict(nworkers=2, pw=[[0, 1]], thr=100, now=1000, reg0=['alive', 'alive'], mp=[1, 2],
          threads=[dict(kind='pool', ops=[dict(op='call_and_wait', p=0, task='ok')]),
                   dict(kind='env', ops=[dict(op='deliver', k=0, fail=False), dict(op='deliver', k=0, fail=True)])]),
@@ -1158,7 +1206,7 @@ COVER_CONFIGS = [
 
 
 def _is_composite_cfg(cfg):
-  return any(o['op'] in lo.COMPOSITE_OPS for t in cfg['threads'] for o in t['ops'])
+  return any(o['op'] in lo.COMPOSITE_OPS + ('submit',) for t in cfg['threads'] for o in t['ops'])
 
 
 def _model_guided_stage(ctx):
